@@ -251,6 +251,18 @@ Proof.
   destruct c as [[[c|c m|c|c]|q|q]|f]; try discriminate; cbn [closes exec1]; intros H; apply N.eqb_eq in H; subst c; rewrite ref_step_in; cbn [fst];
     pose proof (disconnect_preserves hentry ribt r_has_ni (r_add v_fixed) (r_del v_fixed) s k) as D; cbn zeta in D; tauto.
 Qed.
+Lemma opens_eq k c : opens k c = true -> c = CDo (SIn (Connect hentry k)).
+Proof. destruct c as [[[c|c m|c|c]|q|q]|f]; try discriminate. cbn [opens]. intros H. apply N.eqb_eq in H. subst. reflexivity. Qed.
+Lemma open_after_dead k sc : forall s o, (o = false -> sget ribt k s = None) ->
+  fold_left (fun o c => if closes k c then false else if opens k c then true else o) sc o = false -> sget ribt k (exec s sc) = None.
+Proof.
+  induction sc as [|c tl IH]; intros s o Ho H; cbn [fold_left exec] in *; [apply Ho; exact H|].
+  apply (IH (exec1 s c) (if closes k c then false else if opens k c then true else o)); [|exact H]. intros E.
+  destruct (closes k c) eqn:Ec; [apply closes_dead; exact Ec|].
+  destruct (opens k c) eqn:Eo; [discriminate|].
+  destruct c as [i|f]; [|apply Ho; exact E]. cbn [exec1]. apply step_dead; [apply Ho; exact E|].
+  intros ->. cbn [opens] in Eo. rewrite N.eqb_refl in Eo. discriminate.
+Qed.
 Lemma aget_all_none (l : alist N sess) : (forall k, aget N.eqb k l = None) -> l = [].
 Proof.
   destruct l as [|[k v] l]; [reflexivity|]. intros H. specialize (H k). unfold aget in H. cbn [find fst] in H. rewrite N.eqb_refl in H. discriminate.
@@ -365,9 +377,7 @@ Proof.
     apply aget_all_none. intros k. change (sget ribt k (exec s sc) = None).
     assert (Hk0 : sget ribt k s = None) by (unfold sget; rewrite R1; reflexivity).
     destruct (in_dec N.eq_dec k (connected sc)) as [Hin|Hnin]; [|apply exec_dead; assumption].
-    specialize (Hcl k Hin). apply existsb_exists in Hcl. destruct Hcl as (c0 & Hc0 & Hclose).
-    destruct (Hsplit c0 Hc0) as (t1 & t2 & _ & P2 & ->).
-    apply exec_dead; [apply closes_dead; exact Hclose|]. rewrite (passive_connected t2 P2). intros [].
+    apply (open_after_dead k sc s false); [intros _; exact Hk0|apply Hcl; exact Hin].
   - (* the RIB is the configured one again *)
     assert (Hempty : all_empty (srib (exec s sc))).
     { apply existsb_exists in Hfl. destruct Hfl as (c0 & Hc0 & Hisf). apply is_flush_all_eq in Hisf. subst c0.
@@ -413,6 +423,16 @@ Lemma shift_is_flush_all d c : is_flush_all (shift_cmd d c) = is_flush_all c.
 Proof. destruct c as [[x|[[| |id] [| |n]]|q]|f]; reflexivity. Qed.
 Lemma shift_closes d k c : closes k (shift_cmd d c) = closes k c.
 Proof. destruct c as [[[k'|k' m|k'|k']|q|q]|f]; reflexivity. Qed.
+Lemma shift_opens d k c : opens k (shift_cmd d c) = opens k c.
+Proof. destruct c as [[[k'|k' m|k'|k']|q|q]|f]; reflexivity. Qed.
+Lemma shift_open_after d k sc : open_after k (shift_script d sc) = open_after k sc.
+Proof.
+  unfold open_after, shift_script.
+  assert (G : forall o, fold_left (fun o c => if closes k c then false else if opens k c then true else o) (map (shift_cmd d) sc) o
+                        = fold_left (fun o c => if closes k c then false else if opens k c then true else o) sc o).
+  { induction sc as [|c tl IH]; intros o; [reflexivity|]. cbn [map fold_left]. rewrite shift_closes, shift_opens. apply IH. }
+  apply G.
+Qed.
 Lemma shift_connected d sc : connected (shift_script d sc) = connected sc.
 Proof.
   unfold connected, shift_script. induction sc as [|c tl IH]; [reflexivity|]. cbn [map flat_map]. rewrite IH. f_equal.
@@ -427,7 +447,7 @@ Proof.
   intros (body & tail & E & P & F & C). exists (shift_script d body), (shift_script d tail).
   split; [rewrite E; apply map_app|]. split; [unfold shift_script; rewrite (map_forallb _ _ passive); [exact P|apply shift_passive]|].
   split; [unfold shift_script; rewrite (map_existsb _ _ is_flush_all); [exact F|apply shift_is_flush_all]|].
-  intros k Hk. rewrite shift_connected in Hk. unfold shift_script. rewrite (map_existsb _ _ (closes k)); [apply C; exact Hk|apply shift_closes].
+  intros k Hk. rewrite shift_connected in Hk. rewrite shift_open_after. apply C; exact Hk.
 Qed.
 
 (* C19_reset: a script whose ids lie in the window 1..n of the suite counter c, that ends by closing its
@@ -685,13 +705,6 @@ Proof.
 Qed.
 
 (* ------------------------------------------------------------------ the transcribed tests respect the contract *)
-Lemma ends_clean_split (body tail : script) : forallb passive tail = true -> existsb is_flush_all tail = true ->
-  forallb (fun k => existsb (closes k) tail) (connected (body ++ tail)) = true -> ends_clean (body ++ tail).
-Proof.
-  intros P F C. exists body, tail. split; [reflexivity|]. split; [exact P|]. split; [exact F|].
-  intros k Hk. rewrite forallb_forall in C. apply C. exact Hk.
-Qed.
-
 Lemma psplit_spec sc : sc = fst (psplit sc) ++ snd (psplit sc) /\ forallb passive (snd (psplit sc)) = true.
 Proof.
   induction sc as [|c tl [IH1 IH2]]; [split; reflexivity|]. cbn [psplit].
@@ -704,7 +717,7 @@ Lemma ends_clean_b_sound sc : ends_clean_b sc = true -> ends_clean sc.
 Proof.
   unfold ends_clean_b. intros H. apply andb_true_iff in H. destruct H as [F C]. destruct (psplit_spec sc) as [E P].
   exists (fst (psplit sc)), (snd (psplit sc)). split; [exact E|]. split; [exact P|]. split; [exact F|].
-  intros k Hk. rewrite forallb_forall in C. apply C. exact Hk.
+  intros k Hk. rewrite forallb_forall in C. apply negb_true_iff. apply C. exact Hk.
 Qed.
 Lemma expects_of_ok sc : Forall expect_ok (expects_of sc) -> expects_ok sc.
 Proof.
@@ -713,7 +726,7 @@ Qed.
 
 Ltac expects_tac :=
   apply expects_of_ok;
-  cbv [expects_of t_script T_connect_elect T_repeated_params T_add_ipv4_rib T_add_ipv4_fib add_ipv4 T_idempotent_delete
+  cbv [expects_of t_script T_connect_elect T_repeated_params T_add_ipv4_rib T_add_ipv4_fib add_ipv4 T_idempotent_delete T_idempotent_delete_fib idempotent_delete T_get_ipv4 T_flush_specific T_lower_id T_dec_id
        T_same_id_two_clients T_unannounced_id T_get_nh T_flush_master session cleanup connect params elect sendops close doflush doget
        app map flat_map];
   repeat (constructor; [first [apply has_res_ok|apply no_errors_ok|apply has_error_code_ok|apply params_acked_ok
@@ -751,7 +764,7 @@ Proof.
   pose proof catalogue_verdicts as H. unfold catalogue_ok in H. apply andb_true_iff in H. destruct H as [H _].
   rewrite forallb_forall in H. intros Hin. specialize (H t Hin). destruct (model_pass t 0) as [[|]|]; congruence.
 Qed.
-Theorem catalogue_fault_flagged f t : In f [1; 2; 3; 4; 5; 6; 7] -> In t all_tests ->
+Theorem catalogue_fault_flagged f t : In f faulty -> In t all_tests ->
   model_pass t f = Some (negb (memN t (designated_of f))).
 Proof.
   pose proof catalogue_verdicts as H. unfold catalogue_ok in H. apply andb_true_iff in H. destruct H as [_ H].
